@@ -195,6 +195,24 @@ func TestSelectClauses(t *testing.T) {
 	if err != nil || !reflect.DeepEqual(res.Cols, []string{"k", "plus(f, 1)", "lower(k)"}) {
 		t.Errorf("column names: %v %v", res, err)
 	}
+	// static checks also cover operands / branches that short circuit evaluation
+	// never reaches, and tables without rows (ClickHouse analyses types first)
+	for _, q := range []string{
+		"SELECT k FROM t WHERE (f > 100) and ()",
+		"SELECT k FROM t WHERE f > 100 AND k",
+		"SELECT k FROM t WHERE f < 100 OR k",
+		"SELECT if(f >= 0, 1, k + 1) FROM t",
+		"SELECT multiIf(f >= 0, 1, f < 0, k + 1, 2) FROM t",
+		"SELECT k FROM (SELECT k, f FROM t WHERE f > 100) WHERE (f > 100) and ()",
+	} {
+		if _, err := db.Query(q); !errors.Is(err, ErrType) {
+			t.Errorf("%s: want a type error, got %v", q, err)
+		}
+	}
+	if _, err := db.Query("SELECT if(f >= 0, 1, noSuchFunction(k)) FROM t"); !errors.Is(err, ErrUnsupported) {
+		t.Errorf("unknown function in an untaken branch: %v", err)
+	}
+	wantRows(t, db, "SELECT if(f >= 0, 1, intDiv(1, 0)) FROM t LIMIT 1", [][]any{{u(1)}}) // run-time errors stay lazy
 	if _, err := db.Query("SELECT nope FROM t"); !errors.Is(err, ErrUnknownIdentifier) {
 		t.Errorf("unknown column: %v", err)
 	}
